@@ -78,6 +78,8 @@ struct Plan {
 // ---- declaration table (shared by generator, renderer and interpreter) ---------------------------
 struct DeclInfo {
     bool dtorGate = false;  // object of class Q1X: its destructor applies h to its qubit
+    bool dtorMeasure = false;  // object of class Q1M: its destructor resets and measures its qubit (the tracked outcome is taken afterwards)
+    std::string cls;        // dynamic class of an object declaration (Q1, Q1D, Q1X, Q1M, Q2)
     int kind = 0;   // 0 var, 1 array, 2 obj1, 3 obj2, 4 alias, 5 port
     int size = 1;
     bool alive = true;
@@ -121,6 +123,7 @@ inline std::string preamble(bool trackedFields, bool staticQubit = false) {
     s += "}\n";
     s += "class Q1D extends Q1 {\n    public int tag;\n    public constructor() -> Q1D { super(); this.tag = 1; return this; }\n}\n";
     s += "class Q1X extends Q1 {\n    public constructor() -> Q1X { super(); return this; }\n    public destructor() -> void { h(this.q); }\n}\n";
+    s += "class Q1M extends Q1 {\n    public constructor() -> Q1M { super(); return this; }\n    public destructor() -> void { reset this.q; measure this.q; }\n}\n";
     s += "class Q2 {\n";
     s += "    " + t + "public qubit[2] qs;\n";
     s += "    public constructor() -> Q2 = default;\n";
@@ -164,7 +167,7 @@ inline std::string gateCall(const Op& o, const std::vector<DeclInfo>& decls) {
     return std::string(gateName(o.gate)) + "(" + e + ang + ");";
 }
 
-inline Rendered render(const Plan& p, bool trackedFields = false) {
+inline Rendered render(const Plan& p, bool trackedFields = true) {
     Rendered R;
     std::string pre = preamble(trackedFields, p.staticQubit);
     int line = 1;
@@ -188,7 +191,7 @@ inline Rendered render(const Plan& p, bool trackedFields = false) {
         switch (o.kind) {
             case DECL: add(std::string(o.tracked ? "@tracked " : "") + "qubit q" + std::to_string(declCounter++) + ";", oi, true); break;
             case DECLARR: add(std::string(o.tracked ? "@tracked " : "") + "qubit[" + std::to_string(o.size) + "] r" + std::to_string(declCounter++) + ";", oi, true); break;
-            case NEWOBJ1: add(std::string("Q1 o") + std::to_string(declCounter) + (o.path % 4 == 1 ? " = new Q1D();" : o.path % 4 == 3 ? " = new Q1X();" : " = new Q1();"), oi, true); ++declCounter; break;
+            case NEWOBJ1: add(std::string("Q1 o") + std::to_string(declCounter) + (o.path % 8 == 6 ? " = new Q1M();" : o.path % 4 == 1 ? " = new Q1D();" : o.path % 4 == 3 ? " = new Q1X();" : " = new Q1();"), oi, true); ++declCounter; break;
             case NEWOBJ2: add("Q2 p" + std::to_string(declCounter) + " = new Q2();", oi, true); ++declCounter; break;
             case GATE:
                 if (o.loop >= 2) add("for (int lp" + std::to_string(oi) + " = 0; lp" + std::to_string(oi) + " < " + std::to_string(o.loop) + "; lp" + std::to_string(oi) + " = lp" + std::to_string(oi) + " + 1) { " + gateCall(o, decls) + " }", oi, true);
@@ -609,6 +612,7 @@ struct Interp {
     std::vector<std::string> qasm;             // predicted log lines
     std::vector<int> outcomes;                 // measure outcomes / reset branches in log order (-1: no genuine choice)
     std::vector<TrackedEvent> tracked;         // tracked outcomes recorded by object deaths (scope exits are added by the caller)
+    std::map<std::string, std::map<std::string, int>> trackedDeaths;   // "<class>.<field>" -> outcome -> count, for objects dropped so far
     bool expectError = false;                  // the op just applied must have ended the program with a runtime error
     bool nonFiniteAngle = false;               // ... because it is a rotation by an infinite or NaN angle
     int orientation = 0;                       // 0: branch one iff r*(w0+w1) < w1 ; 1: mirrored ; -1 unknown
@@ -751,6 +755,8 @@ struct Interp {
                 d.size = o.kind == DECLARR ? o.size : (o.kind == NEWOBJ2 ? 2 : 1);
                 d.tracked = o.tracked;
                 d.dtorGate = o.kind == NEWOBJ1 && o.path % 4 == 3;
+                d.dtorMeasure = o.kind == NEWOBJ1 && o.path % 8 == 6;
+                d.cls = o.kind == NEWOBJ2 ? "Q2" : o.kind != NEWOBJ1 ? "" : d.dtorMeasure ? "Q1M" : o.path % 4 == 1 ? "Q1D" : d.dtorGate ? "Q1X" : "Q1";
                 decls.push_back(d);
                 std::vector<int> idx;
                 std::vector<cplx> before = sv.a;
@@ -957,14 +963,29 @@ struct Interp {
                 } else if (!failed && ob.words.size() != 2 * nGenuine) ++noncanonicalDraws;
                 // commit
                 sv = c.sv;
+                if (o.kind == DROP) {
+                    // the tracked outcome of the owner's qubit field(s): the last measurements when the object is released,
+                    // i.e. after its user destructor has run (class Q1M: reset and measured there, so always 0)
+                    const DeclInfo& d = decls[(size_t)o.h.decl];
+                    std::string oc;
+                    for (int q : targets) {
+                        int lm = d.dtorMeasure ? 0 : lastMeas[(size_t)q];
+                        if (lm < 0) { oc = "?"; break; }
+                        oc.push_back(lm ? '1' : '0');
+                    }
+                    if (!d.cls.empty()) trackedDeaths[d.cls + (d.kind == 3 ? ".qs" : ".q")][oc]++;
+                }
                 for (size_t k = 0; k < targets.size(); ++k) {
                     int q = targets[k];
-                    if (o.kind == DROP) {
-                        const DeclInfo& d = decls[(size_t)o.h.decl];
-                        (void)d;
-                    }
                     qasm.push_back("reset q[" + std::to_string(q) + "];");
                     outcomes.push_back(c.branch[k]);
+                    if (o.kind == DROP && decls[(size_t)o.h.decl].dtorMeasure) {
+                        // the destructor's own 'reset; measure' came first; the release then resets the (now |0>) qubit again
+                        qasm.push_back("measure q[" + std::to_string(q) + "] -> c[" + std::to_string(q) + "];");
+                        outcomes.push_back(0);
+                        qasm.push_back("reset q[" + std::to_string(q) + "];");
+                        outcomes.push_back(-1);
+                    }
                     measured[(size_t)q] = false;
                     if (o.kind == RESET) lastMeas[(size_t)q] = -1;
                 }
